@@ -1,12 +1,16 @@
 // Command emitter is the subprocess driven by the expectation tool in the C19 correspondence run:
-// it prints the lines of the file given as its first argument and then either exits ("eof") or
-// waits for its stdin to be closed.
+// it prints the lines of the file given as its first argument — a line "#pause <ms>" is not printed:
+// what came before it is flushed as one write and the emitter waits — and then either exits ("eof")
+// or waits for its stdin to be closed.
 package main
 
 import (
 	"bufio"
+	"bytes"
 	"io"
 	"os"
+	"strconv"
+	"time"
 )
 
 func main() {
@@ -14,8 +18,16 @@ func main() {
 	if err != nil {
 		os.Exit(3)
 	}
-	w := bufio.NewWriter(os.Stdout)
-	w.Write(data)
+	w := bufio.NewWriterSize(os.Stdout, 1<<16)
+	for _, line := range bytes.SplitAfter(data, []byte("\n")) {
+		if bytes.HasPrefix(line, []byte("#pause ")) {
+			ms, _ := strconv.Atoi(string(bytes.TrimSpace(line[len("#pause "):])))
+			w.Flush()
+			time.Sleep(time.Duration(ms) * time.Millisecond)
+			continue
+		}
+		w.Write(line)
+	}
 	w.Flush()
 	if len(os.Args) > 2 && os.Args[2] == "eof" {
 		return
